@@ -612,7 +612,9 @@ Matches(e, sc) == e.op = sc.op /\ \A f \in DOMAIN sc : f \in DOMAIN e /\ e[f] = 
 Next == \E r \in EnabledResults :
            /\ Len(hist) < MaxHist + Len(SCRIPT)
            /\ Len(hist) < Len(SCRIPT) => Matches(r.e, SCRIPT[Len(hist) + 1])
-           /\ r.new # Cur
+           \* (inside the scripted prefix a call that leaves the state as it is - a refusal - may be a step: what follows a
+           \* refusal is then explored like what follows any other call; the view below keeps the prefix positions apart)
+           /\ (r.new # Cur \/ Len(hist) < Len(SCRIPT))
            /\ cifs' = r.new.cifs /\ cont' = r.new.cont /\ loops' = r.new.loops /\ vals' = r.new.vals
            /\ nextId' = r.new.nextId /\ hc' = r.new.hc /\ hl' = r.new.hl /\ itr' = r.new.itr /\ snap' = r.new.snap
            /\ hist' = Append(hist, r.e)
@@ -677,7 +679,7 @@ ItrTouchesOnlyCurrent == [][(Len(hist') > Len(hist) /\ LastOp' \in {"itr_update"
 \* one line per generated state-changing transition (ACTION_CONSTRAINT)
 EmitState == PrintT(<<"STATE", ToJson([h |-> hist, s |-> StateOut, probes |-> Probes])>>)
 EmitEdge == PrintT(<<"EDGE", ToJson([h |-> hist', s |-> StateOut'])>>)
-View == <<cifs, cont, loops, vals, nextId, hc, hl, itr, snap>>
+View == <<cifs, cont, loops, vals, nextId, hc, hl, itr, snap, IF Len(hist) < Len(SCRIPT) THEN Len(hist) ELSE Len(SCRIPT)>>
 -----------------------------------------------------------------------------
 (***************************************************************************)
 (* Allocation faults (C17).  While it executes one call the implementation *)
